@@ -89,6 +89,10 @@ int prop_isolation(Run& run) {
             pick = {6, 7, (int)rng.below(6)};
             if (rng.chance(1, 2))
                 std::swap(pick[0], pick[1]);
+        } else if (rng.chance(1, 3)) { // the two policies rebound last from one replaced / removed base
+            pick = {1, 2, (int)(rng.chance(1, 2) ? 0 : 3 + rng.below(5))};
+            if (rng.chance(1, 2))
+                std::swap(pick[0], pick[1]);
         }
         int nsides = rng.range(2, 3);
         for (int i = 0; i < nsides; ++i) {
